@@ -86,6 +86,12 @@ func (ec *ErrorCause) croppedJSON() []byte {
 		return nil
 	}
 
+	// the strings were cut by their raw length; escaping ('<', '&', quotes, control characters) can
+	// still inflate the document past the limit: such a cause is dropped rather than passed on oversized
+	if len(validErrorCauseJSON) > MaxErrorCauseSizeBytes {
+		return nil
+	}
+
 	return validErrorCauseJSON
 }
 
